@@ -445,6 +445,8 @@ class Resolver:
             if isinstance(v, ast.Name) and v.id in ('self', 'cls'):
                 cls = self.repo.enclosing_class(f)
                 if cls is not None:
+                    if f.attr.startswith('__') and not f.attr.endswith('__') and f.attr in cls.methods:
+                        return [cls.methods[f.attr]]     # a private (name-mangled) method: the one of this very class, no overriding
                     name = self._mangle(cls, f.attr, f)
                     outs = []
                     m = self.lookup_method(cls, name)
